@@ -39,6 +39,7 @@ PInit(b) ==
     own |-> <<>>,            \* pending speed changes scheduled on the clock's own time: [v, w]
     ownUsed |-> FALSE,       \* such a change has been requested in this session
     inCb |-> FALSE,
+    next |-> <<>>,            \* commands written while a callback was running: they are read by the next one
     settled |-> FALSE,       \* the window has just passed: the clock must now be stopped at zero          \* between cbstart and cb
     stopOpen |-> FALSE, stopRacy |-> FALSE,   \* a stop() call is in progress / a callback overlapped it
     fuzzy |-> 0,             \* callbacks (still to come) whose time is not checked: a stop raced with the command reads
@@ -115,6 +116,17 @@ Check(m, e) ==
     [] e.a = "hang" -> "returns_promptly"
     [] OTHER -> ""
 
+PlainCmd(m, e) ==
+  CASE e.c = "start" -> [m EXCEPT !.pendTick = "on"]
+    [] e.c = "pause" -> [m EXCEPT !.pendTick = "off"]
+    [] e.c = "stop"  -> [m EXCEPT !.pendTick = "off", !.pendReset = TRUE, !.held = {0}, !.lastRead = -1]
+    [] e.c = "speed" -> [m EXCEPT !.pendSpeed = e.v, !.pendDelay = 0]
+    [] e.c = "speed_in" -> [m EXCEPT !.pendSpeed = e.v, !.pendDelay = e.w]
+    [] e.c = "speed_at" -> [m EXCEPT !.own = Append(@, [v |-> e.v, w |-> e.w]), !.ownUsed = TRUE]
+    [] OTHER -> m
+RECURSIVE Replay(_, _)
+Replay(m, es) == IF es = <<>> THEN m ELSE Replay(PlainCmd(m, Head(es)), Tail(es))
+
 Upd(m, e) ==
   CASE e.a = "cbstart" -> [m EXCEPT !.inCb = TRUE, !.stopRacy = @ \/ m.stopOpen]
     [] e.a = "cmd" /\ e.c = "stop_begin" ->
@@ -129,14 +141,9 @@ Upd(m, e) ==
               ELSE [m EXCEPT !.stopOpen = FALSE, !.pendTick = "off", !.pendReset = TRUE, !.held = {0}, !.lastRead = -1]
     \* (any other command while a stop is in progress or its window is open: the reference is lost)
     [] e.a = "cmd" /\ (m.stopOpen \/ m.fuzzy > 0) -> [m EXCEPT !.lost = TRUE]
-    [] e.a = "cmd" ->
-         (CASE e.c = "start" -> [m EXCEPT !.pendTick = "on"]
-            [] e.c = "pause" -> [m EXCEPT !.pendTick = "off"]
-            [] e.c = "stop"  -> [m EXCEPT !.pendTick = "off", !.pendReset = TRUE, !.held = {0}, !.lastRead = -1]
-            [] e.c = "speed" -> [m EXCEPT !.pendSpeed = e.v, !.pendDelay = 0]
-            [] e.c = "speed_in" -> [m EXCEPT !.pendSpeed = e.v, !.pendDelay = e.w]
-            [] e.c = "speed_at" -> [m EXCEPT !.own = Append(@, [v |-> e.v, w |-> e.w]), !.ownUsed = TRUE]
-            [] OTHER -> m)
+    \* (written while a callback is running, after it has read its commands: it belongs to the next callback)
+    [] e.a = "cmd" /\ "mid" \in DOMAIN e /\ e.mid /\ e.c \in {"start", "pause"} -> [m EXCEPT !.next = Append(@, e)]
+    [] e.a = "cmd" -> PlainCmd(m, e)
     [] e.a = "sched" -> [m EXCEPT !.sched = Append(@, [id |-> e.id, w |-> e.w, fired |-> FALSE])]
     [] e.a = "cb" ->
          LET m1 == AfterCmds(m)
@@ -148,15 +155,15 @@ Upd(m, e) ==
               [m1 EXCEPT !.fuzzy = IF m.fuzzy > 0 THEN m.fuzzy - 1 ELSE 0, !.inCb = FALSE, !.settled = (m.fuzzy = 1 /\ ~m.lost),
                          !.ref = 0, !.ticking = FALSE, !.started = FALSE, !.held = {0},
                          !.speed = last.spNext, !.del = last.delNext, !.frames = @ + e.n]
-            ELSE
-            [m1 EXCEPT !.ref = last.t1, !.inCb = FALSE, !.settled = FALSE,
+            ELSE Replay(
+            [m1 EXCEPT !.ref = last.t1, !.inCb = FALSE, !.settled = FALSE, !.next = <<>>,
                        !.speed = last.spNext, !.del = last.delNext,
                        !.own = SelectSeq(m.own, LAMBDA o : ~(\E k \in 1..Len(w) : w[k].tk /\ o.w <= w[k].t1)),
                        !.held = (IF m.pendReset THEN {0} ELSE m.held) \cup Boundaries(w),
                        !.sched = [k \in 1..Len(m.sched) |->
                                     IF \E j \in 1..Len(e.fired) : e.fired[j][1] = m.sched[k].id
                                     THEN [m.sched[k] EXCEPT !.fired = TRUE] ELSE m.sched[k]],
-                       !.frames = @ + e.n]
+                       !.frames = @ + e.n], m.next)
     [] e.a = "rd" -> [m EXCEPT !.lastRead = e.t]
     [] OTHER -> m
 =============================================================================
